@@ -12,6 +12,7 @@ import (
 	"errors"
 	"fmt"
 	"runtime"
+	"strings"
 	"sync"
 	"sync/atomic"
 	"time"
@@ -84,6 +85,8 @@ type Decision struct {
 	Park  bool  // the process dies here: (maybe) apply, then never return
 	// Gate, if set, is called outside the world mutex before anything else.
 	Gate func()
+
+	zombie bool
 }
 
 var decideOK = Decision{Apply: true}
@@ -315,13 +318,25 @@ func (in *Inst) Release() {
 	}
 }
 
-func (in *Inst) park() {
+var errZombie = errors.New("verif: call of a dead instance released")
+
+// park blocks until the instance is released. A released call normally ends
+// its goroutine with runtime.Goexit (deferred functions run, nothing else of
+// the dead process does). Tile uploads run in errgroup children, whose parent
+// would otherwise see a clean Wait() and carry on (opening cache connections,
+// for instance): those return an error instead, which makes the parent return
+// through its error path; every further call it attempts ends it.
+func (in *Inst) park(c *Call) error {
 	select {
 	case in.parkedCh <- struct{}{}:
 	default:
 	}
 	<-in.release
+	if c != nil && c.Kind == OpUpload && strings.HasPrefix(c.Key, "tile/") {
+		return errZombie
+	}
 	runtime.Goexit()
+	return nil
 }
 
 // begin registers the call, consults the plan. Returns the decision.
@@ -337,7 +352,8 @@ func (in *Inst) begin(c *Call) Decision {
 	if in.dead {
 		in.parked++
 		w.mu.Unlock()
-		in.park()
+		in.park(c)
+		return Decision{Err: errZombie, zombie: true}
 	}
 	d := decideOK
 	if in.Plan != nil {
@@ -356,12 +372,18 @@ func (in *Inst) begin(c *Call) Decision {
 // lateDead handles a call that passed begin() while the instance was alive but
 // reaches its effect after the instance died: a dead process applies nothing.
 // Called with w.mu held; does not return if the instance is dead.
-func (in *Inst) lateDead(d Decision) {
+func (in *Inst) lateDead(c *Call, d Decision) bool {
+	if d.zombie {
+		in.W.mu.Unlock()
+		return true
+	}
 	if in.dead && !d.Park {
 		in.parked++
 		in.W.mu.Unlock()
-		in.park()
+		in.park(c)
+		return true
 	}
+	return false
 }
 
 // finish is called under w.mu after the effect was (not) applied.
@@ -397,7 +419,9 @@ func (b *ObjBackend) Upload(ctx context.Context, key string, data []byte, opts *
 	d := b.In.begin(c)
 	w := b.In.W
 	w.mu.Lock()
-	b.In.lateDead(d)
+	if b.In.lateDead(c, d) {
+		return errZombie
+	}
 	if err := ctx.Err(); b.In.HonorCtx && err != nil && !d.Park && d.Err == nil {
 		d = Decision{Err: err}
 	}
@@ -414,7 +438,8 @@ func (b *ObjBackend) Upload(ctx context.Context, key string, data []byte, opts *
 	b.In.finish(c, d)
 	w.mu.Unlock()
 	if d.Park {
-		b.In.park()
+		b.In.park(c)
+		return errZombie
 	}
 	if c.Applied {
 		w.mu.Lock()
@@ -435,7 +460,9 @@ func (b *ObjBackend) Fetch(ctx context.Context, key string) ([]byte, error) {
 	d := b.In.begin(c)
 	w := b.In.W
 	w.mu.Lock()
-	b.In.lateDead(d)
+	if b.In.lateDead(c, d) {
+		return nil, errZombie
+	}
 	var out []byte
 	if d.Err == nil && !d.Park {
 		if err := ctx.Err(); b.In.HonorCtx && err != nil {
@@ -451,7 +478,8 @@ func (b *ObjBackend) Fetch(ctx context.Context, key string) ([]byte, error) {
 	b.In.finish(c, d)
 	w.mu.Unlock()
 	if d.Park {
-		b.In.park()
+		b.In.park(c)
+		return nil, errZombie
 	}
 	return out, d.Err
 }
@@ -461,7 +489,9 @@ func (b *ObjBackend) Discard(ctx context.Context, key string) error {
 	d := b.In.begin(c)
 	w := b.In.W
 	w.mu.Lock()
-	b.In.lateDead(d)
+	if b.In.lateDead(c, d) {
+		return errZombie
+	}
 	if d.Apply {
 		if w.cur(key) != nil {
 			w.seq++
@@ -474,7 +504,8 @@ func (b *ObjBackend) Discard(ctx context.Context, key string) error {
 	b.In.finish(c, d)
 	w.mu.Unlock()
 	if d.Park {
-		b.In.park()
+		b.In.park(c)
+		return errZombie
 	}
 	return d.Err
 }
@@ -497,7 +528,9 @@ func (b *LockBackend) Fetch(ctx context.Context, logID [sha256.Size]byte) (ctlog
 	d := b.In.begin(c)
 	w := b.In.W
 	w.mu.Lock()
-	b.In.lateDead(d)
+	if b.In.lateDead(c, d) {
+		return nil, errZombie
+	}
 	var out *lockedCheckpoint
 	if d.Err == nil && !d.Park {
 		if err := ctx.Err(); b.In.HonorCtx && err != nil {
@@ -513,7 +546,8 @@ func (b *LockBackend) Fetch(ctx context.Context, logID [sha256.Size]byte) (ctlog
 	b.In.finish(c, d)
 	w.mu.Unlock()
 	if d.Park {
-		b.In.park()
+		b.In.park(c)
+		return nil, errZombie
 	}
 	if d.Err != nil {
 		return nil, d.Err
@@ -530,7 +564,9 @@ func (b *LockBackend) Replace(ctx context.Context, old ctlog.LockedCheckpoint, n
 	d := b.In.begin(c)
 	w := b.In.W
 	w.mu.Lock()
-	b.In.lateDead(d)
+	if b.In.lateDead(c, d) {
+		return nil, errZombie
+	}
 	if err := ctx.Err(); b.In.HonorCtx && err != nil && !d.Park && d.Err == nil {
 		d = Decision{Err: err}
 	}
@@ -550,7 +586,8 @@ func (b *LockBackend) Replace(ctx context.Context, old ctlog.LockedCheckpoint, n
 	b.In.finish(c, d)
 	w.mu.Unlock()
 	if d.Park {
-		b.In.park()
+		b.In.park(c)
+		return nil, errZombie
 	}
 	if d.Err != nil {
 		return nil, d.Err
@@ -563,7 +600,9 @@ func (b *LockBackend) Create(ctx context.Context, logID [sha256.Size]byte, new [
 	d := b.In.begin(c)
 	w := b.In.W
 	w.mu.Lock()
-	b.In.lateDead(d)
+	if b.In.lateDead(c, d) {
+		return errZombie
+	}
 	if d.Apply {
 		if len(w.Locks[logID]) > 0 {
 			d.Apply = false
@@ -579,7 +618,8 @@ func (b *LockBackend) Create(ctx context.Context, logID [sha256.Size]byte, new [
 	b.In.finish(c, d)
 	w.mu.Unlock()
 	if d.Park {
-		b.In.park()
+		b.In.park(c)
+		return errZombie
 	}
 	return d.Err
 }
